@@ -819,6 +819,7 @@ type c15Gen struct {
 	maxNames int
 	deep     bool // deep stream: deeper trees, fuller parents
 	memGi    bool // memory amounts are binary-suffix fractions ("1.5Gi") instead of small decimals
+	zeroEdit bool // the last mutate() made a zero-entry edit (round 4)
 }
 
 func (g *c15Gen) existing() []int {
@@ -1117,6 +1118,34 @@ func (g *c15Gen) mutate(old *c15Spec) *c15Spec {
 	if r.Chance(1, 5) {
 		g.aimMin(&sp)
 	}
+	// round 4: an edit that differs from the old object ONLY in a zero-valued entry (key absent <-> key present with
+	// amount 0, in min or in max).  The unchanged-fields shortcut compares the Spec maps with reflect.DeepEqual, so this IS a
+	// change: every check runs (a max key gained / lost against the parent's and the children's keys, a min key without
+	// its max key) and an admitted one is recorded.
+	g.zeroEdit = false
+	if r.Chance(1, 10) {
+		sp = *old
+		sp.ns = append([]int(nil), old.ns...)
+		k := r.Intn(c15Dims)
+		switch {
+		case r.Bool() && sp.mn[k] == c15Absent:
+			sp.mn[k] = 0
+		case sp.mn[k] == 0 && r.Bool():
+			sp.mn[k] = c15Absent
+		case sp.mx[k] == c15Absent:
+			sp.mx[k] = 0
+		case sp.mx[k] == 0:
+			sp.mx[k] = c15Absent
+		default:
+			if sp.mn[k] == c15Absent || sp.mn[k] == 0 {
+				sp.mn[k] = c15Absent
+				sp.mx[k] = 0
+			} else {
+				sp.mn[k] = 0
+			}
+		}
+		g.zeroEdit = true
+	}
 	return &sp
 }
 
@@ -1381,6 +1410,9 @@ func c15History(h *vHarness, r *vRand, deep bool) {
 			case "upd":
 				if old != nil {
 					sp = g.mutate(old)
+					if g.zeroEdit {
+						h.Tag("upd:zero-entry-edit")
+					}
 				} else {
 					sp = g.fresh(target)
 				}
